@@ -113,6 +113,8 @@ func (w *c04World) open(rw *c03RW, id string, req *packet.TunnelOpenRequest) *pa
 	return last
 }
 
+var c04NotActive = []models.MappingStatus{models.MappingStatusInactive, models.MappingStatusError, "", "paused"}
+
 // One tunnel-open request from every combination of identity, credential, mapping state
 // and tunnel state: an attachment (success acknowledgement / bridge membership / cross-node
 // forward) happens only for an authenticated connection entitled to the mapping.
@@ -142,8 +144,8 @@ func Harness_C04_tunnel_open() {
 		mp.IsRevoked = true
 	case 2:
 		mp.ExpiresAt = &past
-	case 3:
-		mp.Status = models.MappingStatusInactive
+	case 3: // any status other than active: switched off, failed, never set, unknown to this build
+		mp.Status = c04NotActive[verif_Choose(len(c04NotActive))]
 	}
 	if mstate != 4 {
 		w.maps.m["pm1"] = mp
@@ -272,7 +274,7 @@ func Harness_C04_revoke_between() {
 		w.maps.m["pm1"] = &cp
 	case 2:
 		cp := *mp
-		cp.Status = models.MappingStatusInactive
+		cp.Status = c04NotActive[verif_Choose(len(c04NotActive))]
 		w.maps.m["pm1"] = &cp
 	case 3:
 		delete(w.maps.m, "pm1")
